@@ -270,46 +270,36 @@ def rule_3(ctx):
 
 
 def rule_4(ctx):
+    """Model.build_code interpreted on an abstract model: what the parser receives as the name -> address map."""
     mm = ctx.mod('model')
     bc = mm.func('Model.build_code')
-    # the comprehension {name: defn.<attr>}
-    attrs = set()
-    for n in walk_local(bc):
-        if isinstance(n, ast.DictComp) and isinstance(n.value, ast.Attribute):
-            attrs.add(n.value.attr)
-        elif isinstance(n, ast.DictComp):
-            for x in ast.walk(n.value):
-                if isinstance(x, ast.Attribute) and isinstance(x.value, ast.Name):
-                    attrs.add(x.attr)
-    if not attrs:
-        raise AnchorMissing('Model.build_code: name->address map')
-    xm = ctx.mod('xltypes')
-    # classes stored in defined_names by build_defined_names: XLCell (from cells) and XLRange
-    for cname in ('XLCell', 'XLRange'):
-        cref = f'pkg:xltypes:{cname}'
-        cnode = xm.cls(cname)
-        used = sorted(attrs & {'address', 'address_str'}) or sorted(attrs)
-        # if the comprehension discriminates by class, accept any attr resolving to str for that class
-        ok_any = False
-        detail = ''
-        for attr in used:
-            cm, val = ctx.res.class_attr(cref, attr)
-            kind = _attr_type(ctx, cref, attr)
-            detail = f'{cname}.{attr} is {kind}'
-            if kind == 'str':
-                ok_any = True
-        isinst = any(isinstance(c, ast.Call) and isinstance(c.func, ast.Name) and c.func.id == 'isinstance'
-                     for c in ast.walk(bc))
-        if not isinst:
-            # same attribute for all classes
-            attr = sorted(attrs)[0]
-            kind = _attr_type(ctx, cref, attr)
-            ok_any = kind == 'str'
-            detail = f'{cname}.{attr} is {kind}'
-        ctx.expect(ok_any, bc, f'name -> {cname} address text',
-                   f'defined names bound to a {cname} are substituted with a non-string ({detail}): '
+    seen = []
+
+    class _Parser(PyModel):
+        def parse(self, formula, named_ranges=None, *a, **k):
+            seen.append(named_ranges)
+            return Opaque('ast')
+    cell = Rec(cls='pkg:xltypes:XLCell', address='S!A1', value=1, formula=None, defined_names=['nm'])
+    fcell = Rec(cls='pkg:xltypes:XLCell', address='S!B1', value=None, defined_names=[],
+                formula=Rec(cls='pkg:xltypes:XLFormula', formula='=nm+SUM(rng)', sheet_name='S', ast=None, terms=[]))
+    rng = Rec(cls='pkg:xltypes:XLRange', address_str='S!A1:A2', name='rng', cells=[['S!A1'], ['S!A2']], sheet='S', value=None)
+    model = Rec(cls='pkg:model:Model', cells={'S!A1': cell, 'S!B1': fcell}, defined_names={'nm': cell, 'rng': rng}, ranges={'S!A1:A2': rng}, formulae={})
+    it = Interp(ctx.a, mm, {func_params(bc)[0]: model}, inline_pkg=True, scope_fn=bc, self_class='pkg:model:Model',
+                call_models={'pkg:parser:FormulaParser': lambda *a, **k: _Parser()})
+    out = it.run(bc.body)
+    if out.end == 'raise':
+        ctx.bad(bc, 'build_code completes on the witness model', f'build_code raises {out.value!r} on a model with a named cell and a named range')
+        return
+    if not seen or not isinstance(seen[-1], dict):
+        raise Unmodelled(f'build_code: the parser does not receive a name map ({seen[-1:]!r})')
+    names = seen[-1]
+    for key, cname, want in (('nm', 'XLCell', 'S!A1'), ('rng', 'XLRange', 'S!A1:A2')):
+        got = names.get(key)
+        ctx.expect(got == want, bc, f'name -> {cname} address text',
+                   f'defined names bound to a {cname} are substituted with {got!r} instead of the address text {want!r}: '
                    f'=SUM(myrange) evaluates the cell matrix instead of the range text and yields 0')
-    ctx.floor(2, 'classes that can sit in defined_names')
+    ctx.expect(fcell.f['formula'].f.get('ast') is not None, bc, 'every formula cell receives its parsed tree', 'build_code leaves a formula cell without AST')
+    ctx.floor(3, 'classes that can sit in defined_names')
 
 
 def _attr_type(ctx, cref, attr):
